@@ -80,9 +80,10 @@ type vRecW struct {
 func (r *vRecW) Write(p []byte) (int, error) { r.all = append(r.all, p...); return len(p), nil }
 
 type vBytesSrc struct {
-	data []byte
-	pos  int
-	one  bool
+	data    []byte
+	pos     int
+	one     bool
+	eofWith bool // deliver the last chunk together with io.EOF (allowed by io.Reader)
 }
 
 func (s *vBytesSrc) Read(p []byte) (int, error) {
@@ -101,6 +102,9 @@ func (s *vBytesSrc) Read(p []byte) (int, error) {
 	}
 	copy(p, s.data[s.pos:s.pos+n])
 	s.pos += n
+	if s.eofWith && s.pos >= len(s.data) {
+		return n, io.EOF
+	}
 	return n, nil
 }
 
